@@ -864,69 +864,11 @@ Qed.
 Lemma spalte_leer z : Spalte [] z = Ok [].
 Proof. reflexivity. Qed.
 
-(* =================================================================================================
-   Bounded statements (the bound is part of the statement; proved by vm_compute over the enumerated
-   domain) for the functions whose code is too irregular for a closed-form refinement in the time
-   available: Trim, Text_Index_Von_Text, Spalte_Text, Finde_Subtext, Spalten_Spaltmenge_Text. *)
-Fixpoint all_texts (alpha : list Z) (n : nat) : list text :=
-  match n with
-  | O => [[]]
-  | S k => [] :: flat_map (fun c => map (cons c) (all_texts alpha k)) alpha
-  end.
-Definition over (alpha : list Z) (t : text) : Prop := Forall (fun c => In c alpha) t.
-Lemma all_texts_complete alpha n : forall t, over alpha t -> (length t <= n)%nat -> In t (all_texts alpha n).
-Proof.
-  induction n as [|n IH]; intros t Ho Hl.
-  - destruct t; [left; reflexivity|cbn in Hl; lia].
-  - destruct t as [|c r]; [left; reflexivity|]. right. apply in_flat_map. exists c.
-    inversion Ho as [|c' r' Hc Hr]; subst. split; [exact Hc|]. apply in_map. apply IH; [exact Hr|cbn in Hl; lia].
-Qed.
-Lemma bounded2 alpha n m (P : text -> text -> bool) :
-  forallb (fun t => forallb (P t) (all_texts alpha m)) (all_texts alpha n) = true ->
-  forall t s, over alpha t -> over alpha s -> (length t <= n)%nat -> (length s <= m)%nat -> P t s = true.
-Proof.
-  intros H t s Ht Hs Lt Ls. rewrite forallb_forall in H.
-  specialize (H t (all_texts_complete alpha n t Ht Lt)). rewrite forallb_forall in H.
-  apply H. now apply all_texts_complete.
-Qed.
-
-Definition abc : list Z := [97; 98; 99].
-Definition list_eqb {E} (eqb : E -> E -> bool) : list E -> list E -> bool :=
-  fix go a b := match a, b with [] , [] => true | x :: a', y :: b' => eqb x y && go a' b' | _, _ => false end.
-Lemma list_eqb_text l1 : forall l2, list_eqb text_eqb l1 l2 = true -> l1 = l2.
-Proof.
-  induction l1 as [|x l IH]; intros [|y l'] H; cbn in H; try discriminate; [reflexivity|].
-  apply andb_true_iff in H. destruct H as [H1 H2]. apply text_eqb_spec in H1. subst. f_equal. now apply IH.
-Qed.
-Lemma list_eqb_Z l1 : forall l2, list_eqb Z.eqb l1 l2 = true -> l1 = l2.
-Proof.
-  induction l1 as [|x l IH]; intros [|y l'] H; cbn in H; try discriminate; [reflexivity|].
-  apply andb_true_iff in H. destruct H as [H1 H2]. apply Z.eqb_eq in H1. subst. f_equal. now apply IH.
-Qed.
-
-(* reference functions written with the list library only *)
+(* ---- reference functions (list library only) used by the full theorems of Lib/TextSearchProofs.v ---- *)
+(* 1-based position of the first occurrence of s in t, -1 if there is none *)
 Definition ref_index (t s : text) : Z :=
   match find (occ_b t s) (positions t s) with Some k => Z.of_nat k + 1 | None => -1 end.
-(* split at the leftmost non-overlapping occurrences of the separator text *)
-Fixpoint split_text_ref (fuel : nat) (s t cur : text) : list text :=
-  match fuel with
-  | O => [rev cur ++ t]
-  | S f =>
-      match t with
-      | [] => [rev cur]
-      | c :: r => if text_eqb (firstn (length s) t) s then rev cur :: split_text_ref f s (skipn (length s) t) []
-                  else split_text_ref f s r (c :: cur)
-      end
-  end.
-(* 1-based start positions of the leftmost non-overlapping occurrences *)
-Fixpoint finde_ref (fuel : nat) (s t : text) (pos : Z) : list Z :=
-  match fuel with
-  | O => []
-  | S f =>
-      if (length t <? length s)%nat then []
-      else if text_eqb (firstn (length s) t) s then pos :: finde_ref f s (skipn (length s) t) (pos + len s)
-      else finde_ref f s (tl t) (pos + 1)
-  end.
+(* the maximal runs of letters that are not in the set m *)
 Fixpoint fields_ref (m : list Z) (t : text) (cur : text) : list text :=
   match t with
   | [] => if len cur =? 0 then [] else [rev cur]
@@ -934,61 +876,8 @@ Fixpoint fields_ref (m : list Z) (t : text) (cur : text) : list text :=
               then (if len cur =? 0 then [] else [rev cur]) ++ fields_ref m r []
               else fields_ref m r (c :: cur)
   end.
-(* Text_Index_Von_Text: the first occurrence (1-based) or -1, never a Laufzeitfehler *)
-Definition chk_index (t s : text) : bool :=
-  match s, t with [], _ => true | _, [] => true | _, _ =>
-    match Text_Index_Von_Text t s with Ok r => r =? ref_index t s | _ => false end end.
-Lemma text_index_von_text_bounded : forall t s, over abc t -> over abc s -> (length t <= 7)%nat -> (length s <= 3)%nat ->
-  s <> [] -> t <> [] -> Text_Index_Von_Text t s = Ok (ref_index t s).
-Proof.
-  intros t s Ht Hs Lt Ls Hs0 Ht0.
-  pose proof (bounded2 abc 7 3 chk_index ltac:(vm_compute; reflexivity) t s Ht Hs Lt Ls) as H.
-  unfold chk_index in H. destruct s; [congruence|]. destruct t; [congruence|].
-  destruct (Text_Index_Von_Text _ _) as [r| | |]; try discriminate. apply Z.eqb_eq in H. now subst.
-Qed.
 Lemma text_index_von_text_leer s : Text_Index_Von_Text [] s = Ok (-1).
 Proof. reflexivity. Qed.
-
-(* Spalte_Text: the pieces between the leftmost non-overlapping occurrences of the separator text *)
-Definition chk_spalte_text (t s : text) : bool :=
-  match t with [] => true | _ =>
-  if len s <=? 1 then true
-  else match Spalte_Text t s with Ok l => list_eqb text_eqb l (split_text_ref (length t + 1) s t []) | _ => false end end.
-Lemma spalte_text_bounded : forall t s, over abc t -> over abc s -> (length t <= 7)%nat -> (length s <= 3)%nat ->
-  t <> [] -> 1 < len s -> Spalte_Text t s = Ok (split_text_ref (length t + 1) s t []).
-Proof.
-  intros t s Ht Hs Lt Ls Ht0 H1.
-  pose proof (bounded2 abc 7 3 chk_spalte_text ltac:(vm_compute; reflexivity) t s Ht Hs Lt Ls) as H.
-  unfold chk_spalte_text in H. destruct t as [|c t']; [congruence|].
-  replace (len s <=? 1) with false in H by (symmetry; apply Z.leb_gt; lia).
-  destruct (Spalte_Text _ _) as [l| | |]; try discriminate. f_equal. now apply list_eqb_text.
-Qed.
 (* a separator of one letter is Spalte *)
 Lemma spalte_text_einzeln t c : Spalte_Text t [c] = Spalte t c.
 Proof. reflexivity. Qed.
-
-(* Finde_Subtext: the start positions of the leftmost non-overlapping occurrences *)
-Definition chk_finde (t s : text) : bool :=
-  match s, t with [], _ => true | _, [] => true | _, _ =>
-    match Finde_Subtext t s with Ok l => list_eqb Z.eqb l (finde_ref (length t + 1) s t 1) | _ => false end end.
-Lemma finde_subtext_bounded : forall t s, over abc t -> over abc s -> (length t <= 7)%nat -> (length s <= 3)%nat ->
-  s <> [] -> t <> [] -> Finde_Subtext t s = Ok (finde_ref (length t + 1) s t 1).
-Proof.
-  intros t s Ht Hs Lt Ls Hs0 Ht0.
-  pose proof (bounded2 abc 7 3 chk_finde ltac:(vm_compute; reflexivity) t s Ht Hs Lt Ls) as H.
-  unfold chk_finde in H. destruct s as [|c s']; [congruence|]. destruct t as [|d t']; [congruence|].
-  destruct (Finde_Subtext _ _) as [l| | |]; try discriminate. f_equal. now apply list_eqb_Z.
-Qed.
-
-(* Spalten_Spaltmenge_Text: on the bounded domain, the maximal runs of letters outside the set *)
-Definition chk_fields (t m : text) : bool :=
-  match t, m with [], _ => true | _, [] => true | _, _ =>
-    match Spalten_Spaltmenge_Text_Ref t m with Ok l => list_eqb text_eqb l (fields_ref m t []) | _ => false end end.
-Lemma spaltmenge_bounded : forall t m, over abc t -> over abc m -> (length t <= 6)%nat -> (length m <= 2)%nat ->
-  t <> [] -> m <> [] -> Spalten_Spaltmenge_Text_Ref t m = Ok (fields_ref m t []).
-Proof.
-  intros t m Ht Hm Lt Lm Ht0 Hm0.
-  pose proof (bounded2 abc 6 2 chk_fields ltac:(vm_compute; reflexivity) t m Ht Hm Lt Lm) as H.
-  unfold chk_fields in H. destruct t as [|c t']; [congruence|]. destruct m as [|d m']; [congruence|].
-  destruct (Spalten_Spaltmenge_Text_Ref _ _) as [l| | |]; try discriminate. f_equal. now apply list_eqb_text.
-Qed.
